@@ -1,8 +1,71 @@
 import ApolloModel.Model.Proto
+import ApolloModel.Model.Smith
 open Apollo Apollo.Proto
 namespace Driver
+namespace C32
+open Apollo.SmithGen
 
-/-- streams of property C32 are named `c32.<name>` -/
-def c32 (_stream : String) (_fs : List String) : String := "unknown-stream"
+def splitNonEmpty (s : String) (sep : String) : List String := (s.splitOn sep).filter (· ≠ "")
+
+def names (s : String) : List Name := (splitNonEmpty s ",").map String.toList
+
+def bytesOf (s : String) : List Nat := (splitNonEmpty s ",").filterMap String.toNat?
+
+def joinNames (l : List Name) : String := ",".intercalate (l.map String.ofList)
+
+/-- insertion sort on the printed form (canonical order for sets) -/
+def sortStrs (l : List String) : List String :=
+  l.foldl (fun acc x => (acc.takeWhile (· < x)) ++ [x] ++ (acc.dropWhile (· < x))) []
+
+def sortedNames (l : List Name) : String := ",".intercalate (sortStrs (l.map String.ofList))
+
+/-- `Name:P1,P2;+Name:P3` (`+` marks an extension) -/
+def decDefs (s : String) : List Def :=
+  (splitNonEmpty s ";").map fun d =>
+    let ext := d.startsWith "+"
+    let d := if ext then (d.drop 1).toString else d
+    match d.splitOn ":" with
+    | [n, ps] => { name := n.toList, extend := ext, interfaces := names ps }
+    | [n] => { name := n.toList, extend := ext, interfaces := [] }
+    | _ => { name := [], extend := ext, interfaces := [] }
+
+/-- `Name:S1,S2;…` -/
+def decFrags (s : String) : List Frag :=
+  (splitNonEmpty s ";").map fun d =>
+    match d.splitOn ":" with
+    | [n, ps] => { name := n.toList, spreads := names ps }
+    | [n] => { name := n.toList, spreads := [] }
+    | _ => { name := [], spreads := [] }
+
+def dedupNames (l : List Name) : List Name := l.foldl insertNew []
+
+end C32
+
+open C32 Apollo.SmithGen in
+/-- streams of property C32 -/
+def c32 (stream : String) (fs : List String) : String :=
+  match stream, fs with
+  | "c32.typename", [used, bytes, k] =>
+    match typeNames (k.toNat?.getD 0) (names (String.ofList (decodeField used))) (bytesOf bytes) [] with
+    | some ns => joinNames ns
+    | none => "OUT-OF-FUEL"
+  | "c32.implements", [defs, bytes] =>
+    let ds := decDefs defs
+    match implementsInterfaces (graphOf ds) (ds.map (·.name)) (bytesOf bytes) with
+    | some ns => sortedNames ns
+    | none => "ERR"
+  | "c32.closure", [defs] =>
+    -- per type (first-occurrence order): its closure without itself, and what is missing from its declarations
+    let ds := decDefs defs
+    let g := graphOf ds
+    ";".intercalate ((dedupNames (ds.map (·.name))).map fun n =>
+      let cl := (g.closure n).filter (· != n)
+      let missing := cl.filter fun q => !(declared ds n).contains q
+      s!"{String.ofList n}:{sortedNames cl}:{sortedNames missing}")
+  | "c32.prune", [ops, frags] =>
+    let fr := decFrags frags
+    let os := (splitNonEmpty ops ";").map names
+    joinNames ((prune os fr).map (·.name)) ++ "|" ++ sortedNames (reachable os fr)
+  | _, _ => "unknown-stream"
 
 end Driver
